@@ -197,6 +197,26 @@ impl Blob
         );
     }
 
+    /*  A target that was recovered or downloaded is a different file from the one whose FileState
+        this blob remembers.  Forget those FileStates, so that the timestamp optimization cannot take
+        the new file for the old one. */
+    pub fn forget_replaced
+    (
+        self : &mut Self,
+        resolutions : &Vec<FileResolution>
+    )
+    {
+        for (info, resolution) in self.file_infos.iter_mut().zip(resolutions.iter())
+        {
+            match resolution
+            {
+                FileResolution::Recovered | FileResolution::Downloaded =>
+                    info.file_state = FileState::empty(),
+                _ => {},
+            }
+        }
+    }
+
     pub fn get_file_infos
     (
         self : &Self
